@@ -129,7 +129,10 @@ func famRegs(r *rng) []string {
 		"func g5(){ k = 7; h = func(){ for k = 1:3 { print(k) } }; h(); k }; println(g5())",
 		"i = 100; fq2 = func(){ for i = 3 { print(i) }; i }; println(fq2() + i)",
 		"n = 5; fq3 = func(n){ for n = 2 { print(n) }; n }; println(fq3(9), n)",
-		"a = [10,20,30]; a[-1] = 3; a[-3] = 1; println(a, catch(a[-4] = 0).err)"))
+		"a = [10,20,30]; a[-1] = 3; a[-3] = 1; println(a, catch(a[-4] = 0).err)",
+		"for i = 3 { del(i); println(1) }; func fd(a){ del(a); 1 }; println(fd(3))",
+		"func fo(fo){ fo }; println(fo(1)); func go2(a,b,go2){ [a, go2] }; println(go2(1,2,3))",
+		"m = {\"i\": 5}; for i = 2 { println(m.i, del(m.i), m) }"))
 	return res
 }
 
